@@ -63,6 +63,8 @@ def units(tier):
     out.append({'kind': 'mapper', 'indices': [0, 3], 'depth': 8 if tier == 'quick' else 11})
     out.append({'kind': 'mapper', 'indices': [1, 0], 'depth': 7 if tier == 'quick' else 10})
     out.append({'kind': 'manager', 'depth': 6 if tier == 'quick' else 8})
+    out.append({'kind': 'sweep', 'upto': 1700 if tier == 'quick' else 5000})
+    out.append({'kind': 'churn', 'lives': 40 if tier == 'quick' else 260})
     return out
 
 
@@ -238,9 +240,14 @@ def canon_typed_model(model):
 
 # ---------------------------------------------------------------------------------------- mapper
 
+NAMES = ('a', 'big', 'big2', 'tup')
+
+
 def _mk(name):
     if name == 'big':
         return 10 ** 20 + 0 * len(name)     # equal, never identical
+    if name == 'big2':
+        return 10 ** 20 + 1 + 0 * len(name)   # a second temporary of the same size (may reuse the first one's address)
     if name == 'tup':
         return tuple([1, 'x'])
     return ''.join(['a'])
@@ -256,7 +263,7 @@ def mapper_ops(unit, model):
         if i not in model['live']:
             ops.append(('add_key', i))
         else:
-            for mk in ('a', 'big', 'tup'):
+            for mk in NAMES:
                 if mk not in model['live'][i]:
                     ops.append(('add_map', i, mk))
             ops.append(('complete', i))
@@ -299,7 +306,11 @@ def apply_mapper(unit, store, model, op):
                 r = store.get_map(keyof(j), _mk(n))
                 if r is NOTSET or r != idx:
                     problems.append(('get_map-differs-from-add_map', j, n, repr(r), idx))
-            for n in ('a', 'big', 'tup'):
+                # an unmapped key looked up right after a mapped one (temporaries of the same size)
+                for u in NAMES:
+                    if u not in m and store.get_map(keyof(j), _mk(u)) is not NOTSET:
+                        problems.append(('get_map-finds-unmapped-key', j, u))
+            for n in NAMES:
                 if n not in m and store.get_map(keyof(j), _mk(n)) is not NOTSET:
                     problems.append(('get_map-finds-unmapped-key', j, n))
         except Exception as e:
@@ -390,7 +401,84 @@ def apply_manager(unit, sm, model, op):
     return problems
 
 
+def run_sweep(unit, acc):
+    """One live slot at index i, for every i up to the bound (sparse stores of every size): it reads not-set, then the written
+    value, iterate() yields exactly it, and an added / deleted neighbour at i-1 does not disturb it."""
+    for i in range(unit['upto']):
+        for dt, dflt in ((int, None), ('obj', None), (bool, False)):
+            s = MemoryStore(name='s', data_type=dt, default_value=dflt)
+            problems = []
+            try:
+                s.add_key((i,))
+                got = s.get((i,))
+                if (dflt is None and got is not NOTSET) or (dflt is not None and got != dflt):
+                    problems.append(('fresh-slot-not-reading-notset', i, repr(got)))
+                s.set((i,), True if dt is bool else 7)
+                if i > 0:
+                    s.add_key((i - 1,))
+                    s.del_key((i - 1,))
+                if s.get((i,)) != (True if dt is bool else 7):
+                    problems.append(('read-differs-from-last-write', i, repr(s.get((i,)))))
+                keys = sorted(x[0] for x in s.iterate())
+                if keys != [(i,)]:
+                    problems.append(('iterate-keys-differ-from-live-keys', i, repr(keys)[:100]))
+            except Exception as e:
+                problems.append(('operation-raises', i, repr(e)))
+            acc.evals += 1
+            acc.events += 5
+            acc.traces += 1
+            if problems:
+                acc.nviol += 1
+                if len(acc.violations) < 5:
+                    acc.violations.append({'signature': 'C14|sweep|%s|%s' % (getattr(dt, '__name__', dt), problems[0][0]), 'size': i,
+                                           'case': {'unit': {'kind': 'sweep1', 'index': i}, 'ops': []},
+                                           'detail': {'problems': [list(map(str, p)) for p in problems]}})
+                return
+    acc.count('sweep_indices', unit['upto'])
+    acc.states.add(fast_hash(('sweep', unit['upto'])))
+
+
+def run_churn(unit, acc, report=True):
+    """The group-index allocator under churn: three groups stay mapped under key 0 while key 3 goes through many lives of 4096
+    groups each (more than 2^20 allocations in the thorough tier); no index handed out may equal one still in use."""
+    s = MemoryStore(name='m', data_type='mapper')
+    s.add_key((0,))
+    held = set(s.add_map((0,), 'h%d' % j) for j in range(3))
+    n = 0
+    bad = None
+    for life in range(unit['lives']):
+        s.add_key((3,))
+        mine = set()
+        for j in range(4096):
+            idx = s.add_map((3,), j)
+            n += 1
+            if idx in held or idx in mine:
+                bad = (n, idx)
+                break
+            mine.add(idx)
+        if bad:
+            break
+        for mk in list(s.iterate_map((3,))):
+            s.del_map((3,), mk)
+        s.del_key((3,))
+    acc.evals += 1
+    acc.events += n
+    acc.traces += 1
+    acc.count('allocations_under_churn', n)
+    if bad:
+        acc.nviol += 1
+        acc.violations.append({'signature': 'C14|churn||add_map-returns-index-still-in-use', 'size': unit['lives'],
+                               'case': {'unit': {'kind': 'churn1', 'lives': unit['lives']}, 'ops': []},
+                               'detail': {'allocation_number': bad[0], 'index': bad[1]}})
+
+
 def run_unit(unit, acc):
+    if unit['kind'] == 'sweep':
+        acc.cases += 1
+        return run_sweep(unit, acc)
+    if unit['kind'] == 'churn':
+        acc.cases += 1
+        return run_churn(unit, acc)
     if unit['kind'] == 'typed':
         bfs(unit, new_typed, typed_ops, apply_typed, canon_typed_model, None, acc)
     elif unit['kind'] == 'mapper':
@@ -405,6 +493,13 @@ def run_case(case, acc):
     """Replay one recorded operation history on a fresh store."""
     unit = case['unit']
     kind = unit['kind']
+    if kind in ('sweep1', 'churn1'):
+        sub = Acc2()
+        if kind == 'sweep1':
+            run_sweep({'upto': unit['index'] + 1}, sub)
+        else:
+            run_churn({'lives': unit['lives']}, sub)
+        return [{'signature': v['signature'], 'detail': v['detail']} for v in sub.violations]
     new, apply = {'typed': (new_typed, apply_typed), 'mapper': (new_mapper, apply_mapper), 'manager': (new_manager, apply_manager)}[kind]
     store, model = new(unit)
     for op in case['ops']:
@@ -412,6 +507,19 @@ def run_case(case, acc):
         if problems:
             return [{'signature': sig(unit, problems[0]), 'detail': {'problems': [list(map(str, p)) for p in problems[:5]], 'ops': case['ops']}}]
     return []
+
+
+class Acc2(object):
+    """Minimal accumulator for replaying the sweep / churn probes."""
+
+    def __init__(self):
+        self.evals = self.events = self.traces = self.nviol = self.cases = 0
+        self.violations = []
+        self.counters = {}
+        self.states = set()
+
+    def count(self, name, n=1):
+        self.counters[name] = self.counters.get(name, 0) + n
 
 
 def guards(acc, tier):
